@@ -400,8 +400,18 @@ func (c *crawlGen) seed(cfg *Cfg) []QRow {
 			}
 		}
 		c.reliable = true
-		c.page(host, p, v, c.N(3), cfg, outs)
+		hub := c.page(host, p, v, c.N(3), cfg, outs)
 		c.reliable = false
+		if c.Chance(1, 3) {
+			// one more outlink announced in a Link header (pagination style)
+			op := "/" + c.Name("next") + ".html"
+			exp := Never
+			if cfg.MaxHops > 0 {
+				exp = MustEnd
+			}
+			c.res(host, op, "", 0, exp, OK("text/html", Lit("<html><body>next "+c.Name("l")+"</body></html>"))).Tags["outlink-of"] = v
+			hub.Resp[0].Headers = append(hub.Resp[0].Headers, [2]string{"Link", "<" + URL(host, op) + `>; rel="next"`})
+		}
 		return []QRow{c.row(v)}
 	case 14: // endlessly nested JSON resources, optionally each behind a redirect: only three levels below the page may be fetched
 		p := "/" + c.Name("deep") + "/index.html"
